@@ -64,26 +64,33 @@ Definition forcing (sample : arr -> src -> option Qc) (inputs : list (arr * list
 
 Definition oget (o : option Qc) : Qc := match o with Some x => x | None => 0%Qc end.
 
-(* the compiled right-hand side of the network: u_i = inputs + edges;  x_i' = u_i *)
-Definition net_rhs (W : list row) (inputs : list (arr * list nat)) (c : unit) (k : nat) (x : row) : row * unit :=
-  (map (fun i => (oget (forcing (fun a s => sample_fixed a k s) inputs i) + dot (nth i W []) x)%Qc) (seq 0 (length x)), c).
+(* a unit that no input addresses and no edge reaches keeps the declared default of u; a unit with any source gets
+   the sum of its sources instead of the default *)
+Definition covered (W : list row) (inputs : list (arr * list nat)) (i : nat) : bool :=
+  existsb (fun inp => existsb (Nat.eqb i) (snd inp)) inputs || existsb (fun w => negb (Qeq_bool (this w) 0)) (nth i W []).
+Definition base (udef : Qc) (W : list row) (inputs : list (arr * list nat)) (i : nat) : Qc :=
+  if covered W inputs i then 0%Qc else udef.
+
+(* the compiled right-hand side of the network: u_i = default | inputs + edges;  x_i' = u_i *)
+Definition net_rhs (udef : Qc) (W : list row) (inputs : list (arr * list nat)) (c : unit) (k : nat) (x : row) : row * unit :=
+  (map (fun i => (base udef W inputs i + oget (forcing (fun a s => sample_fixed a k s) inputs i) + dot (nth i W []) x)%Qc) (seq 0 (length x)), c).
 
 Definition accepted (vectorize : bool) (inp : arr * list nat) : bool :=
   let a := normalise (fst inp) in
   negb (is2d a) || ((ncols a =? length (snd inp))%nat && vectorize).
 
 (* CircuitTemplate.run(solver = euler | heun, inputs = ...) on the network, all units requested as outputs *)
-Definition run_inputs (s : solver) (vectorize : bool) (depth : nat) (T dt : Qc) (W : list row)
+Definition run_inputs (s : solver) (vectorize : bool) (depth : nat) (T dt udef : Qc) (W : list row)
            (inputs : list (arr * list nat)) (x0 : row) : outcome :=
   if (2 <=? depth)%nat && negb (length inputs =? 0)%nat then ErrAttribute     (* D30: _add_input_node nests plain dicts *)
   else if negb (forallb (accepted vectorize) inputs) then ErrShape           (* (N,n) needs vectorize and n = #targets *)
   else if existsb (fun inp => (alen (fst inp) <? rnd (T / dt))%nat) inputs then ErrIndex   (* index(inp, t) past the end *)
-  else run_model (net_rhs W inputs) s T dt None 0%Qc (seq 0 (length x0)) x0 tt.
+  else run_model (net_rhs udef W inputs) s T dt None 0%Qc (seq 0 (length x0)) x0 tt.
 
 (* get_run_func(inputs = ..., solver = 'scipy'): the vector field at time t, state x; T = N * step_size *)
-Definition vf_adaptive (dt : Qc) (W : list row) (inputs : list (arr * list nat)) (t : Qc) (x : row) : option row :=
+Definition vf_adaptive (dt udef : Qc) (W : list row) (inputs : list (arr * list nat)) (t : Qc) (x : row) : option row :=
   let vals := map (fun i => oadd (forcing (fun a s => sample_adaptive a (nq (alen a) * dt)%Qc t s) inputs i)
-                                 (Some (dot (nth i W []) x))) (seq 0 (length x)) in
+                                 (Some (base udef W inputs i + dot (nth i W []) x)%Qc)) (seq 0 (length x)) in
   if forallb (fun o => match o with Some _ => true | None => false end) vals then Some (map oget vals) else None.
 
 (* ------------------------------------------------------------------------------------------------ *)
@@ -109,11 +116,11 @@ Definition spec_value (inp : arr * list nat) (i k : nat) : Qc :=
 Definition spec_u (inputs : list (arr * list nat)) (i k : nat) : Qc :=
   fold_right (fun inp acc => (spec_value inp i k + acc)%Qc) 0%Qc inputs.
 
-Definition spec_rhs (W : list row) (inputs : list (arr * list nat)) (c : unit) (k : nat) (x : row) : row * unit :=
-  (map (fun i => (spec_u inputs i k + dot (nth i W []) x)%Qc) (seq 0 (length x)), c).
+Definition spec_rhs (udef : Qc) (W : list row) (inputs : list (arr * list nat)) (c : unit) (k : nat) (x : row) : row * unit :=
+  (map (fun i => (base udef W inputs i + spec_u inputs i k + dot (nth i W []) x)%Qc) (seq 0 (length x)), c).
 
-Definition spec_run_inputs (s : solver) (T dt : Qc) (W : list row) (inputs : list (arr * list nat)) (x0 : row) : list row :=
-  spec_run (spec_rhs W inputs) s T dt None 0%Qc (seq 0 (length x0)) x0 tt.
+Definition spec_run_inputs (s : solver) (T dt udef : Qc) (W : list row) (inputs : list (arr * list nat)) (x0 : row) : list row :=
+  spec_run (spec_rhs udef W inputs) s T dt None 0%Qc (seq 0 (length x0)) x0 tt.
 
 (* guards *)
 Definition NoDupb (l : list nat) : bool :=
